@@ -830,7 +830,7 @@ def run(ctx):
         'config_children': st_cfg['evaluations'], 'failing_tests_total': rec.total(),
         'wall_s_parts': {'tlc': round(t_tlc, 1), 'split': round(t_split, 1), 'argv': round(t_argv, 1), 'which': round(t_which, 1),
                          'config': round(t_cfg, 1)},
-        'checker_cmd': [r['cmd'] for _, r in runs], 'known_findings_hit': nknown, 'spec_drift': ctx.drift,
+        'checker_cmd': ' ; '.join(r['cmd'] for _, r in runs), 'known_findings_hit': nknown, 'spec_drift': ctx.drift,
     }, assumptions=[
         'characters are represented by their class (ordinary ASCII, space, tab, the two quotes, backslash, non-ASCII letter); two '
         'concrete representatives per class are replayed',
